@@ -25,6 +25,7 @@ func Run(o *drv.Out) {
 	CorpusHighQcOneHash(o, "results")
 	CorpusLockFromOtherPhase(o, "propose")
 	CorpusLockFromOtherPhase(o, "election-vote")
+	CorpusLeaderLockDowngraded(o)
 	CorpusCommitteeChange(o, "lock-carried-over")
 	CorpusCommitteeChange(o, "bitmap-for-other-committee")
 	// randomised members of the re-lock family (roles, leaders, gaps); many more when an obligation broke
@@ -433,7 +434,7 @@ func byzPhase(r *run, rng *rand.Rand, i int, lvl chaos) {
 		if len(cands) > 0 {
 			to := rng.Intn(len(s.Nodes))
 			tb := s.Nodes[to].B
-			hq := cands[rng.Intn(len(cands))]
+			hq := s.CertWithProposal(cands[rng.Intn(len(cands))])
 			if rng.Intn(3) == 0 { // a certificate of another phase dressed up as a lock, naming the recipient as candidate
 				var other []*lib.QuorumCertificate
 				for _, c := range s.Certs {
@@ -452,8 +453,12 @@ func byzPhase(r *run, rng *rand.Rand, i int, lvl chaos) {
 				}
 			}
 			if hq != nil {
-				s.ByzElectionVote(i, bftsim.VR{Root: tb.RootHeight, Round: tb.Round}, i, hq, to)
-				r.log("byz %d sends an ELECTION_VOTE with a HighQc to %d", i, to)
+				named := to // the recipient processes the payload when it collects election votes as the named candidate
+				if rng.Intn(4) == 0 {
+					named = i
+				}
+				s.ByzElectionVote(i, bftsim.VR{Root: tb.RootHeight, Round: tb.Round}, named, hq, to)
+				r.log("byz %d sends an ELECTION_VOTE naming %d with an older genuine certificate as HighQc to %d", i, named, to)
 				r.o.Count("byz:election-vote-with-highqc")
 				r.flush()
 			}
